@@ -45,7 +45,8 @@ func c01URLs() []string {
 	u := []string{"http://example.org/ads/x.js", "https://a.com/", "http://google.com/adsa6/adsgp", "http://x.com/banner_ad", "http://x.com/q?adsgp",
 		"https://www.example.org/ads/", "http://1.2.3.4/ab", "http://example.org/ads/x.js?a=b&c=d", "ws://x.com/ads", "http://x.com/ads/ads/ads/x.js",
 		"http://example.org/example.org/example.org", "https://google.com", "http://a.com", "http://x.com/ad", "http://adsa6",
-		"http://пример.рф/реклама", "http://x.com/ads/баннер.gif", "http://x.com/РЕКЛАМА/ёж", "http://localhost/ads/x.js"}
+		"http://пример.рф/реклама", "http://x.com/ads/баннер.gif", "http://x.com/РЕКЛАМА/ёж", "http://localhost/ads/x.js",
+		"http://example.org/\u023a/adsa6", "http://x.com/\u023e\u023a\u023e/q?adsgp", "http://x.com/\u212a\u212a/banner_ad", "http://Example.ORG/ads/adsa6"}
 	for _, c := range windowColliders {
 		u = append(u, "http://x.com/"+c[0], "http://x.com/q/"+c[1], "http://x.com/"+c[0]+"/x/"+c[0], "http://"+c[1])
 	}
